@@ -41,6 +41,9 @@ RULES = {
     "R-SPLIT-ABUT": ("rules.derived", "r_split_abut"),
     "R-PAR-DELEGATION": ("rules.derived", "r_par_delegation"),
     "R-SERDE": ("rules.derived", "r_serde"),
+    "R-SET-ASSIGN": ("rules.derived", "r_set_assign"),
+    "R-HASHER-SOURCE": ("rules.derived", "r_hasher_source"),
+    "R-DROP-ORDER": ("rules.ownership", "r_drop_order"),
     "R-ACCT": ("rules.acct", "r_acct"),
     "R-CTRL-WRITE": ("rules.acct", "r_ctrl_write"),
     "R-ERASE-BEFORE": ("rules.ownership", "r_erase_before"),
@@ -106,7 +109,7 @@ PROPS["C16"] = {
 }
 
 PROPS["C03"] = {
-    "rules": ["R-ALLOC-WHO", "R-LAYOUT-SOURCE", "R-FIELD-IMMUT", "R-SINGLETON-GUARD", "R-NOALLOC-REACH", "R-LINEAR-INNER",
+    "rules": ["R-ALLOC-WHO", "R-LAYOUT-SOURCE", "R-FIELD-IMMUT", "R-SINGLETON-GUARD", "R-NOALLOC-REACH", "R-LINEAR-INNER", "R-DROP-ORDER",
               "R-ERASE-BEFORE", "R-OWNING-ITER", "R-DUP-FORGET", "R-DRAIN-PROTOCOL", "R-BULKDROP-GUARD", "R-WINDOW"],
     "level": "other",
     "decided": "allocation pairing: who may call the allocator, every Layout comes from calculate_layout_for(buckets)/into_allocation and bucket_mask/ctrl are never reassigned, so a block is returned with the layout it was requested with (R-ALLOC-WHO, R-LAYOUT-SOURCE, R-FIELD-IMMUT); "
@@ -117,7 +120,7 @@ PROPS["C03"] = {
 }
 
 PROPS["C01"] = {
-    "rules": ["R-PROBE-STOP", "R-CTRL-WRITE", "R-SLOT-PROVENANCE", "R-SLOT-FRESH", "R-BUCKET-FRESH", "R-KEEP-KEY", "R-HASH-SOURCE", "R-ACCT", "R-RESERVE-GUARD", "R-REHASH-DECISION", "R-SAME-GROUP"],
+    "rules": ["R-PROBE-STOP", "R-CTRL-WRITE", "R-SLOT-PROVENANCE", "R-SLOT-FRESH", "R-BUCKET-FRESH", "R-KEEP-KEY", "R-HASH-SOURCE", "R-HASHER-SOURCE", "R-ACCT", "R-RESERVE-GUARD", "R-REHASH-DECISION", "R-SAME-GROUP"],
     "level": "other",
     "decided": "the mechanisms the property rests on are structurally intact on every path: lookups stop only at an EMPTY byte and all search loops agree (R-PROBE-STOP); control bytes are written only through mirror-maintaining primitives (R-CTRL-WRITE); "
                "every insert slot passes through the small-table fix-up (R-SLOT-PROVENANCE) and is consumed before any other mutation, buckets are not used across a rehash (R-SLOT-FRESH, R-BUCKET-FRESH); free-slot accounting (R-ACCT); growth decisions (R-RESERVE-GUARD, R-REHASH-DECISION)",
@@ -194,7 +197,7 @@ PROPS["C08"] = {
 }
 
 PROPS["C14"] = {
-    "rules": ["R-RESERVE-FIRST", "R-ENTRY-NOEFFECT", "R-HASH-SOURCE", "R-BUCKET-FRESH", "R-SLOT-FRESH", "R-RESERVE-GUARD", "R-ACCT", "R-WINDOW", "R-ERASE-BEFORE", "R-SIG-REGION", "R-MUT-FROM-MUT"],
+    "rules": ["R-RESERVE-FIRST", "R-ENTRY-NOEFFECT", "R-HASH-SOURCE", "R-HASHER-SOURCE", "R-BUCKET-FRESH", "R-SLOT-FRESH", "R-RESERVE-GUARD", "R-ACCT", "R-WINDOW", "R-ERASE-BEFORE", "R-SIG-REGION", "R-MUT-FROM-MUT"],
     "level": "other",
     "decided": "rustc_entry reserves before creating a Vacant entry and insert_no_grow is reachable only from it (R-RESERVE-FIRST, code the baseline never compiles); creating an entry reaches no table mutation (except reserve for HashTable::entry / rustc_entry), so an unused Vacant entry changes nothing (R-ENTRY-NOEFFECT); "
                "an Occupied entry never holds a bucket found before a rehash (R-BUCKET-FRESH); Vacant inserts go through RawTable::insert whose growth condition is intact (R-RESERVE-GUARD, R-SLOT-FRESH); replace_bucket_with removes before calling the closure and restores control byte and growth_left (R-ERASE-BEFORE, R-ACCT, R-WINDOW); entry types borrow the map exclusively (R-SIG-REGION, R-MUT-FROM-MUT)",
@@ -210,7 +213,7 @@ PROPS["C06"] = {
 }
 
 PROPS["C07"] = {
-    "rules": ["R-SET-DELEGATION", "R-SET-EQUIV-ASSERT", "R-KEEP-KEY", "R-SLOT-FRESH", "R-EQ-LEN", "R-PROBE-STOP", "R-SAME-GROUP", "R-HASH-SOURCE"],
+    "rules": ["R-SET-DELEGATION", "R-SET-ASSIGN", "R-SET-EQUIV-ASSERT", "R-KEEP-KEY", "R-SLOT-FRESH", "R-EQ-LEN", "R-PROBE-STOP", "R-SAME-GROUP", "R-HASH-SOURCE"],
     "level": "other",
     "decided": "the operator forms |, &, ^, - call union/intersection/symmetric_difference/difference with (self, rhs) in that order, is_superset swaps its operands, symmetric_difference chains both differences, the filtering iterators probe the other operand, "
                "and the basic operations forward to the map (R-SET-DELEGATION: 'agree with them' by construction); get_or_insert_with stores only after the equivalence assertion succeeded (R-SET-EQUIV-ASSERT); replace stores the new value, get_or_insert keeps the old (R-KEEP-KEY); "
